@@ -32,6 +32,14 @@ def isUnknown (known : Verifiers) (p : SigLine) : Bool :=
   | .unknown => true
   | _ => false
 
+/-- all lines are well-formed signature lines -/
+def parseAll : List Bytes → Option (List SigLine)
+  | [] => some []
+  | l :: ls =>
+    match parseSigLine l, parseAll ls with
+    | some p, some ps => some (p :: ps)
+    | _, _ => none
+
 /-- valid note text: UTF-8, no ASCII control character other than newline, ends in newline -/
 def ValidText (t : Bytes) : Prop := validMsg t = true ∧ t.getLast? = some 10
 
